@@ -17,6 +17,7 @@ import Driver.SemaChk
 import Driver.OnceChk
 import Driver.ApplyChk
 import Driver.SourceChk
+import Driver.SrcChk
 /-! `dvdriver`: line-protocol driver over the Lean models — the same definitions the theorems are about.
     One operation per line in, one canonical result per line out; the C harnesses answer the same lines with
     the real library and the check diffs the two streams. -/
@@ -241,4 +242,5 @@ def main (args : List String) : IO UInt32 := do
   | "once" :: paths => OnceChk.main paths
   | "apply" :: paths => ApplyChk.main paths
   | "source" :: paths => SourceChk.main paths
+  | "srcview" :: paths => SrcChk.main paths
   | _ => loop (← IO.getStdin) (← IO.getStdout); return 0
